@@ -203,4 +203,7 @@ class SegwitChecker(SolutionChecker):
                     "this version witness program not yet supported",
                     errno.DISCOURAGE_UPGRADABLE_WITNESS_PROGRAM,
                 )
+            else:
+                # a future witness version succeeds unconditionally, leaving a single true item
+                return b"", [self.VM.VM_TRUE], flags, None  # type: ignore[attr-defined]
         return None
